@@ -1,6 +1,7 @@
 package checks
 
 import (
+	orbitdb "berty.tech/go-orbit-db"
 	"context"
 	"encoding/json"
 	"fmt"
@@ -49,7 +50,7 @@ func genC07(rt *rapid.T) CaseC07 {
 	n := rapid.IntRange(1, maxOps).Draw(rt, "nops")
 	keyIdx := rapid.IntRange(0, len(docKeys)-1)
 	for i := 0; i < n; i++ {
-		kinds := []string{"put", "put", "putall", "putall", "putbatch", "del", "del"}
+		kinds := []string{"put", "put", "put", "putall", "putall", "putall", "putbatch", "del", "del", "del", "reopen"}
 		if c.Writers > 1 {
 			kinds = append(kinds, "sync", "sync")
 		}
@@ -296,6 +297,12 @@ func execC07(c CaseC07) *Outcome {
 				}
 				o.Labels = append(o.Labels, "delete-absent")
 			}
+		case "reopen":
+			// the replica restarts and rebuilds its documents from storage
+			if err := cl.ReopenWith(ctx, w, -1, &orbitdb.CreateDBOptions{Replicate: &no}); err != nil {
+				return fail("step %d: replica %d cannot restart and load: %v", step, w, err)
+			}
+			o.Labels = append(o.Labels, "reopen")
 		case "sync":
 			src := op.From % c.Writers
 			if src == w {
